@@ -90,9 +90,12 @@ pub fn money_regex_parser(config: &SmartCalcConfig, tokinizer: &mut Tokinizer, g
                 _ => continue
             };
             
+            /* A currency symbol behind the notation ('1k $') belongs to the literal, a left over symbol made the rest of the line unreadable ('1k $ * 2' was $1.000). A currency word behind the notation stays a text token ('2M eur') */
+            let currency_match = capture.name("CURRENCY").unwrap();
             let end = match capture.name("NOTATION") {
+                Some(notation) if currency_match.end() > notation.end() && !currency_match.as_str().chars().all(|ch| ch.is_alphabetic()) => currency_match.end(),
                 Some(notation) => notation.end(),
-                _ => capture.name("CURRENCY").unwrap().end()
+                _ => currency_match.end()
             };
 
             if tokinizer.add_token_location(capture.get(0).unwrap().start(), end, Some(TokenType::Money(price, currency.clone())), capture.name("PRICE").unwrap().as_str().to_string()) {
